@@ -294,6 +294,7 @@ void sched_point(SimThread *t, int kind) {
 void block(SimThread *t, BKind k, uintptr_t obj, long val, bool timed, long deadline) {
     G.steps++;
     check_caps(t);
+    if (k != B_CELL) t->blocks++;
     t->st = T_BLOCKED; t->bk = k; t->bobj = obj; t->bval = val; t->timed = timed; t->deadline = deadline;
     SimThread *next = pick(t);
     run_thread(t, next);
@@ -344,7 +345,7 @@ SimThread *spawn(SimThread *parent, void *tstate, void (*entry)()) {
     c->id = G.nth; c->go = 0; c->st = T_RUNNABLE; c->bk = B_NONE; c->bobj = 0; c->bval = 0; c->timed = false; c->deadline = 0; c->signaled = false;
     c->detached = c->joined = c->started = false; c->has_rel_fence = false; c->acq_pending.clear(); c->rel_fence.clear();
     c->tstate = tstate; c->entry = entry; c->stack_node = 0; c->depth = 0; c->yield_streak = 0; c->cas_fail_streak = 0; c->yielding = false;
-    c->allocs = c->allocs_excl = 0; c->run_streak = 0; c->saved_sp = 0;
+    c->allocs = c->allocs_excl = 0; c->blocks = 0; c->run_streak = 0; c->saved_sp = 0;
     c->stack_lo = STACK_BASE + (uintptr_t)c->id * STACK_SZ; c->stack_hi = c->stack_lo + STACK_SZ;
     if (parent) { c->vc = parent->vc; hb_tick(parent); } else c->vc.clear();
     c->vc.c[c->id] = 1;
@@ -477,6 +478,7 @@ void at_end(void (*fn)()) { if (G.n_end_cb < 8) G.end_cb[G.n_end_cb++] = fn; }
 unsigned long live_blocks() { return heap_live_blocks(); }
 unsigned long live_bytes() { return heap_live_bytes(); }
 unsigned long total_allocs() { return heap_total_allocs(); }
+unsigned long thread_blocks() { SimThread *t = simself(); return t ? t->blocks : 0; }
 unsigned long thread_allocs() { SimThread *t = simself(); return t ? t->allocs : 0; }
 unsigned long thread_allocs_excluding() { SimThread *t = simself(); return t ? t->allocs_excl : 0; }
 } // namespace dsim
